@@ -109,12 +109,12 @@ def sig_source(params, first=None):
     out.append('/')
   out += [one(p) for p in pk]
   if va:
-    out.append('*' + va[0][0])
+    out.append('*' + one(va[0]))     # (may carry an annotation)
   elif ko:
     out.append('*')
   out += [one(p) for p in ko]
   if vk:
-    out.append('**' + vk[0][0])
+    out.append('**' + one(vk[0]))
   return ', '.join(out)
 
 
